@@ -1002,7 +1002,7 @@ func stripFuncValue(v ssa.Value) (*ssa.Function, bool) {
 // binding of a Scopevar-named key with comma-ok and later writes that value
 // back under the same key (possibly in a deferred closure).
 func scopeSavedAndRestored(p *Program, f *ssa.Function, depth int, seen map[*ssa.Function]bool, so *scopeOps) (result bool) {
-	if depth > 3 {
+	if depth > 6 {
 		return false
 	}
 	if v, ok := seen[f]; ok {
@@ -1076,6 +1076,88 @@ func scopeSavedAndRestored(p *Program, f *ssa.Function, depth int, seen map[*ssa
 		}
 		if restored {
 			return true
+		}
+	}
+	// saved in one step and restored in another, through fields of an object the
+	// two steps share (run.saveOuterBindings(); defer run.restoreOuterBindings())
+	{
+		pathOf := func(addr ssa.Value) string {
+			root, path := fieldPath(addr)
+			if len(path) == 0 {
+				return ""
+			}
+			if _, isParam := unspill(root).(*ssa.Parameter); !isParam {
+				if ld, ok := root.(*ssa.UnOp); !ok || ld.Op != token.MUL {
+					return ""
+				}
+			}
+			return types.TypeString(root.Type(), nil) + "." + strings.Join(path, ".")
+		}
+		saverPaths := func(h *ssa.Function) map[string]bool {
+			out := map[string]bool{}
+			eachInstr(h, func(_ *ssa.BasicBlock, i ssa.Instruction) {
+				lk, ok := i.(*ssa.Lookup)
+				if !ok || !lk.CommaOk || !isScopeType(lk.X.Type()) || !isSVKey(lk.Index) || lk.Referrers() == nil {
+					return
+				}
+				for _, r := range *lk.Referrers() {
+					ex, ok := r.(*ssa.Extract)
+					if !ok || ex.Index != 0 || ex.Referrers() == nil {
+						continue
+					}
+					for _, r2 := range *ex.Referrers() {
+						if st, ok := r2.(*ssa.Store); ok && st.Val == ssa.Value(ex) {
+							if pth := pathOf(st.Addr); pth != "" {
+								out[pth] = true
+							}
+						}
+					}
+				}
+			})
+			return out
+		}
+		restorerPaths := func(h *ssa.Function) map[string]bool {
+			out := map[string]bool{}
+			eachInstr(h, func(_ *ssa.BasicBlock, i ssa.Instruction) {
+				mu, ok := i.(*ssa.MapUpdate)
+				if !ok || !isScopeType(mu.Map.Type()) || !isSVKey(mu.Key) {
+					return
+				}
+				if ld, ok := mu.Value.(*ssa.UnOp); ok && ld.Op == token.MUL {
+					if pth := pathOf(ld.X); pth != "" {
+						out[pth] = true
+					}
+				}
+			})
+			return out
+		}
+		type stepCall struct {
+			h    *ssa.Function
+			recv string
+		}
+		var steps []stepCall
+		eachCall(f, func(cl ssa.CallInstruction) {
+			h := cl.Common().StaticCallee()
+			if h == nil || fnPkgPath(h) != evalPkg || len(h.Blocks) == 0 || len(cl.Common().Args) == 0 {
+				return
+			}
+			steps = append(steps, stepCall{h, exprKey(cl.Common().Args[0], 0)})
+		})
+		for _, a := range steps {
+			sp := saverPaths(a.h)
+			if len(sp) == 0 {
+				continue
+			}
+			for _, b := range steps {
+				if b.recv != a.recv || b.h == a.h {
+					continue
+				}
+				for pth := range restorerPaths(b.h) {
+					if sp[pth] {
+						return true
+					}
+				}
+			}
 		}
 	}
 	// saved and restored through a slot object
